@@ -18,6 +18,6 @@ func VK01eNamespace() {
 		}
 	}
 	ns := &nsto{inventory: &vmodel.KV{}, master: master}
-	vmodel.SeqHistory(ns, blobs, 0, 3+vrt.Tier())
+	vmodel.SeqHistory(ns, blobs, 0, 3)
 	vrt.Cover("done")
 }
